@@ -1,6 +1,7 @@
 (* C06 -- proofs about the frame arithmetic of generated functions. *)
 From Coq Require Import List ZArith Bool Lia ZifyBool.
 From MirV Require Import Base.W64 C06.Frame.
+Require MirV.C06.Alloca MirV.C06.AllocaProofs.
 Import ListNotations.
 Local Open Scope Z_scope.
 Ltac Zify.zify_post_hook ::= Z.div_mod_to_equations.
@@ -217,4 +218,35 @@ Proof.
   unfold shim_rsp_at_call, shim_rsp_at_ret, shim_overflow_arg_area, shim_pushed_gpr, shim_reg_save_area,
     shim_results_addr, shim_rsp_at_call, shim_va_list_addr, shim_gpr_area, shim_xmm_area, shim_after_push_rbx.
   repeat split; intros; lia.
+Qed.
+
+(* ------------------------------------------------------------------ round 3 (wave v): alloca in ANY function, leaf or not *)
+(* the prologue's rsp (frame_sp_aligned) is the F of the alloca discipline: for every function shape (any number of
+   slots / saved registers, either frame layout, with or without calls in the body) and every history of allocas, calls,
+   bstart/bend, every live block is 16-byte aligned and lies below the frame *)
+Lemma alloca_aligned_in_every_function f E evs : E mod 16 = 8 -> Forall C06.Alloca.ev_wf evs ->
+  let s := C06.Alloca.arun evs (C06.Alloca.astate0 (sp_after f E)) in
+  C06.Alloca.a_sp s mod 16 = 0
+  /\ forall b, In b (C06.Alloca.a_blocks s) ->
+       C06.Alloca.b_addr b mod 16 = 0 /\ C06.Alloca.b_addr b + C06.Alloca.b_size b <= sp_after f E
+       /\ 0 <= C06.Alloca.b_req b <= C06.Alloca.b_size b.
+Proof.
+  intros HE Hw. destruct (sp_aligned f E HE) as [A _].
+  destruct (C06.AllocaProofs.alloca_live_blocks (sp_after f E) evs A Hw) as (S0 & _ & B & _).
+  split; [exact S0|]. intros b Hb. destruct (B b Hb) as (_ & B2 & B3 & B4). repeat split; try assumption; apply B4.
+Qed.
+
+(* rounding the block for non-leaf functions only: the non-leaf frame is the modelled one, and a leaf function with
+   one slot (frame-pointer layout, as alloca forces) leaves rsp = 8 mod 16, so its first alloca block is misaligned *)
+Lemma leaf_unrounded_block_refuted_lem :
+  (forall f E, sp_after_lf false f E = sp_after f E)
+  /\ exists f E n, E mod 16 = 8 /\ C06.Alloca.ev_wf (C06.Alloca.EAlloca n) /\ keep_fp f = true
+       /\ sp_after_lf true f E mod 16 = 8
+       /\ exists b, In b (C06.Alloca.a_blocks (C06.Alloca.arun [C06.Alloca.EAlloca n] (C06.Alloca.astate0 (sp_after_lf true f E))))
+                    /\ C06.Alloca.b_addr b mod 16 = 8.
+Proof.
+  split; [reflexivity|].
+  exists {| used := []; keep_fp := true; vararg := false; nslots := 1 |}, 1032, 48.
+  repeat split; try reflexivity; try (cbv; congruence).
+  eexists. split; [left; reflexivity|reflexivity].
 Qed.
